@@ -10,6 +10,7 @@
 package main
 
 import (
+	"sync/atomic"
 	"bufio"
 	"crypto/sha1"
 	"encoding/json"
@@ -395,6 +396,9 @@ type proc struct {
 
 var raceWorkerPath = "/verif/bin/harness-race"
 
+// confirmedHangs counts requests that stayed unanswered even with the long limit
+var confirmedHangs int64
+
 // readRaceLog returns the head of the race detector's report, if any
 func readRaceLog(base string) string {
 	ms, _ := filepath.Glob(base + ".*")
@@ -530,6 +534,17 @@ func runAll(cases []*Case) {
 					w = startProc(self, "worker")
 				}
 				ans, ok := w.ask(i, req, to)
+				if !ok && strings.HasPrefix(ans, "HANG") && atomic.LoadInt64(&confirmedHangs) < 3 {
+					// no answer in time: on a loaded machine that is not yet a hang. Ask a fresh worker
+					// again, alone and with a long limit; only a second silence counts (at most three
+					// such waits per run, further silent cases keep the short limit)
+					w.kill()
+					w = startProc(self, "worker")
+					ans, ok = w.ask(i, req, 90*time.Second)
+					if !ok {
+						atomic.AddInt64(&confirmedHangs, 1)
+					}
+				}
 				c.impl = ans
 				if !ok {
 					w.kill()
